@@ -74,17 +74,20 @@ def _dump_reader(r, stats, vectors, columns, keyfield):
                                                             ti.min_length(), ti.max_length(),
                                                             f32(ti.max_weight())]
     d["postings"] = post
+    # concrete names of dynamic (glob) fields are not listed by the schema: take them from the index
+    dyn = sorted(f for f in r.indexed_field_names() if f in schema and f not in schema.names())
+    fobjs = list(schema.items()) + [(f, schema[f]) for f in dyn]
     if stats:
         d["term_stats"] = tstats
         d["field_length_totals"] = dict((f, r.field_length(f)) for f in schema.scorable_names())
     # field lengths
     fl = {}
-    for f in schema.scorable_names():
+    for f in list(schema.scorable_names()) + [f for f in dyn if schema[f].scorable]:
         fl[f] = dict((k, r.doc_field_length(dn, f)) for dn, k in keyof.items())
     d["field_lengths"] = fl
     if vectors:
         vec = {}
-        for f in [n for n, fo in schema.items() if fo.vector]:
+        for f in [n for n, fo in fobjs if fo.vector]:
             per = {}
             for dn, k in keyof.items():
                 if r.has_vector(dn, f):
@@ -93,7 +96,7 @@ def _dump_reader(r, stats, vectors, columns, keyfield):
         d["vectors"] = vec
     if columns:
         cols = {}
-        for f, fobj in schema.items():
+        for f, fobj in fobjs:
             if fobj.column_type:
                 # (whether a column *file* exists in some segment is layout; the values - default where
                 # missing - are content)
